@@ -157,14 +157,20 @@ package announce
 // host itself is ignored, otherwise it is attributed to the original publisher;
 // a first-hand message is attributed to its sender; the CID is the message's.
 //@ func (*Receiver).watch
-//@   property C09
+//@   property C09 C16
+// C16: however the watcher ends, it signals that it has ended (Close waits for exactly this), exactly once
+//@   ensures-local count("close:watchDone") == 1
 //@   requires recvOK(r) && !held(r.announceMutex) && ctx != nil && r.topicSub != nil && r.topic != nil && r.watchDone != nil && !closed(r.watchDone)
 //@   ghost src := ""
 //@   ghost orig := ""
 //@   at call IDFromBytes: after ghost src := str(result0)
 //@   at call Decode: after ghost orig := str(result0)
-//@   at call handleAnnounce: assert arg2.Cid == m.Cid && arg3 == false
-//@   at call handleAnnounce: assert ite(str(m.OrigPeer) != str(""), str(arg2.PeerID) == orig && src != str(r.hostID), str(arg2.PeerID) == src)
+//@   ghost mcid := zero("cid.Cid")
+//@   ghost morig := 0
+//@   at call UnmarshalCBOR: after ghost mcid := arg0.Cid
+//@   at call UnmarshalCBOR: after ghost morig := str(arg0.OrigPeer)
+//@   at call handleAnnounce: assert arg2.Cid == mcid && arg3 == false
+//@   at call handleAnnounce: assert ite(morig != str(""), str(arg2.PeerID) == orig && src != str(r.hostID), str(arg2.PeerID) == src)
 //@   loop 1: invariant recvOK(r) && !held(r.announceMutex) && r.topicSub != nil && r.topic != nil && r.watchDone != nil && !closed(r.watchDone)
 // every pubsub message is handed on exactly once unless there is a reason not to: the subscription had
 // to be restarted, the sender ID / the message / its addresses / its original-peer field do not decode,
@@ -176,7 +182,7 @@ package announce
 //@   ghost origSet := false
 //@   at call IDFromBytes: after ghost idErr := result1 != nil
 //@   at call UnmarshalCBOR: after ghost cborErr := result != nil
-//@   at call UnmarshalCBOR: after ghost origSet := str(m.OrigPeer) != str("")
+//@   at call UnmarshalCBOR: after ghost origSet := str(arg0.OrigPeer) != str("")
 //@   at call GetAddrs: after ghost addrErr := result1 != nil
 //@   at call Decode: after ghost decErr := result1 != nil
 //@   loop 1: iteration ensures itercount("call:handleAnnounce") <= 1
